@@ -49,7 +49,10 @@ def parseAst (s : String) : Option Route :=
   if s == "!" then none else (s.splitOn ";").mapM parseSeg |>.map (⟨·⟩)
 
 /-- `strings.ToUpper(method)`; `*` = every method -/
-def methodsOf (s : String) : List String :=
+def methodsOf (s0 : String) : List String :=
+  -- "combo:GET,POST": the harness registers through Combo(path).Get(h).Post(h) and names through ComboRoute.Name —
+  -- for the router the same sequence of single-method registrations, and the name lands on the same route
+  let s := if s0.startsWith "combo:" then (s0.drop 6).toString else s0
   if s == "*" then Gen.httpMethods else (s.splitOn ",").map String.toUpper
 
 def parseHdrPairs : List String → Option (List HdrPair)
@@ -82,17 +85,28 @@ def showParams (ps : Params) (names : List Bytes) : String :=
   let names := names.toArray.qsort (fun a b => a.toHex < b.toHex) |>.toList
   joinWith "," (names.map fun n => n.toHex ++ "=" ++ (match ps.get? n with | some v => v.toHex | none => "<none>"))
 
-def showOutcome (R : Router) (o : Outcome) : String :=
+/-- `viaRouter`: the request went through `Router.ServeHTTP` and the handler rebuilt its URL with `c.URLPath("r<hid>",
+    pairs…)` — pairs = its parameters sorted by name, without `route` (reserved) and `withOptional` (the builder's own
+    switch), then `withOptional, <flag>`; otherwise (TREQ / IREQ) the tree was matched directly and the URL built with
+    `Leaf.URLPath(all parameters, flag)`. -/
+def showOutcome (R : Router) (o : Outcome) (viaRouter : Bool := true) : String :=
   match o with
   | .notFound => "nf"
   | .handler l ps =>
-    let names := formBinds l.route l.long
+    -- a bind NAMED `route` is shadowed by the reserved parameter (the router stores the route text under that key after
+    -- matching; `C02.params_of_winner` excludes it)
+    let names := (formBinds l.route l.long).filter (· != B "route")
     let vals := names.filterMap fun n => (ps.get? n).map (n, ·)
-    let _ := R
+    let sorted := (vals.filter (·.1 != B "withOptional")).toArray.qsort (fun a b => a.1.toHex < b.1.toHex) |>.toList
+    let pairs (flag : String) : List Bytes := sorted.flatMap (fun (k, v) => [k, v]) ++ [B "withOptional", B flag]
+    let nm := Bytes.ofString s!"r{l.hid}"
+    let u (flag : Bool) : Bytes :=
+      if viaRouter then (R.urlPath nm (pairs (if flag then "true" else "false"))).getD (Bytes.ofString "\x00na")
+      else urlPath l.route vals flag
     -- `all=`: every key the matcher wrote while serving THIS request (values of abandoned branches included): what the
     -- handler's map may contain at most — a key or value from anywhere else (an earlier request) is a leak
     let allKeys := (ps.map (·.1)).eraseDups.filter (· != B "route")
-    s!"h {l.hid} long={if l.long then 1 else 0} {showParams ps names} route={(ps.get? (B "route")).getD [] |>.toHex} u0={(urlPath l.route vals false).toHex} u1={(urlPath l.route vals true).toHex} all={if allKeys.isEmpty then "-" else showParams ps allKeys}"
+    s!"h {l.hid} long={if l.long then 1 else 0} {showParams ps names} route={(ps.get? (B "route")).getD [] |>.toHex} u0={(u false).toHex} u1={(u true).toHex} all={if allKeys.isEmpty then "-" else showParams ps allKeys}"
 
 structure St where
   R : Router := Router.new
@@ -151,11 +165,11 @@ def step (E : Engine) (st : St) (l : List String) : St × String :=
     (st, showOutcome st.R (st.R.serve E req))
   | "TREQ" :: m :: p :: hs =>
     let req : Request := ⟨(hexOf m).toStringLossy, hexOf p, parseReqHdrs hs⟩
-    (st, showOutcome st.R (st.R.serveTreeOnly E req))
+    (st, showOutcome st.R (st.R.serveTreeOnly E req) false)
   | "IREQ" :: m :: p :: hs =>
     let req : Request := ⟨(hexOf m).toStringLossy, hexOf p, parseReqHdrs hs⟩
     match st.R.serveTreeOnlyIdx E req with
-    | .ok o => (st, showOutcome st.R o)
+    | .ok o => (st, showOutcome st.R o false)
     | .error _ => (st, "panic")
   | "URL" :: name :: pairs =>
     match st.R.urlPath (hexOf name) (pairs.map hexOf) with
